@@ -1,7 +1,7 @@
 (* Properties_C13.v — property C13: grid discretizations track cells, neighbours, borders and components exactly.
    Statements only, over GridModel.v. *)
 From Coq Require Import List ZArith Bool Arith Permutation.
-From OmplV Require Import HeapModel GridModel GridProofs GridComps.
+From OmplV Require Import HeapModel HeapElt GridModel GridProofs GridComps GridBProofs.
 Import ListNotations.
 Local Open Scope Z_scope.
 
@@ -63,6 +63,91 @@ Proof.
   intros cells. apply G. apply ninv_nil.
 Qed.
 
+(* ---- GridB: the two priority queues.  lt_ext / lt_int are the cell ordering functors (LessThanExternal /
+   LessThanInternal on the cell data); as for any heap they must induce a total preorder. ---- *)
+Section GridBProps.
+  Variables lt_ext lt_int : Z -> Z -> bool.
+  Hypothesis te : forall x y, kle Z lt_ext x y = true \/ kle Z lt_ext y x = true.
+  Hypothesis re : forall x y z, kle Z lt_ext x y = true -> kle Z lt_ext y z = true -> kle Z lt_ext x z = true.
+  Hypothesis ti : forall x y, kle Z lt_int x y = true \/ kle Z lt_int y x = true.
+  Hypothesis ri : forall x y z, kle Z lt_int x y = true -> kle Z lt_int y z = true -> kle Z lt_int x z = true.
+
+  (* for every history of add / remove / update from the empty grid (an added cell being distinct from the cells
+     still present): counts and flags exact (NInv), heaps ordered with consistent handles, and each heap holds exactly
+     the (cell, data) pairs of the cells carrying its flag (W) *)
+  Theorem C13_gridb_invariant_for_every_history :
+    forall p ops g, brun lt_ext lt_int p gb_empty ops = Some g -> BInv lt_ext lt_int p g.
+  Proof. intros p ops g. apply (brun_inv lt_ext lt_int te re ti ri p ops gb_empty g). apply binv_empty. Qed.
+
+  (* every cell sits in exactly one of the two queues: once in the one its border flag names, keyed by its data, and
+     not in the other; and the queues hold nothing but cells of their class *)
+  Theorem C13_gridb_cell_in_exactly_one_queue :
+    forall g x, W lt_ext lt_int g -> In x (gcells g) ->
+      In (cid x, cdata x) (map (strip Z) (heap_of (border x) g)) /\
+      ~ In (cid x) (ids Z (heap_of (negb (border x)) g)) /\
+      NoDup (ids Z (hext g)) /\ NoDup (ids Z (hint g)).
+  Proof. exact (cell_in_exactly_one_queue lt_ext lt_int). Qed.
+  Theorem C13_gridb_queues_hold_only_cells :
+    forall b g e, W lt_ext lt_int g -> In e (heap_of b g) ->
+      exists x, In x (gcells g) /\ border x = b /\ cid x = eid e /\ cdata x = ekey e.
+  Proof. exact (queues_hold_only_cells lt_ext lt_int). Qed.
+  (* countExternal / countInternal *)
+  Theorem C13_gridb_queue_sizes :
+    forall g, W lt_ext lt_int g ->
+      length (hext g) = length (filter (fun x => border x) (gcells g)) /\
+      length (hint g) = length (filter (fun x => negb (border x)) (gcells g)).
+  Proof. exact (queue_sizes lt_ext lt_int). Qed.
+
+  (* topInternal() is a best interior cell (the best border cell when there is no interior cell), topExternal() a best
+     border cell (the best interior cell when there is no border cell) *)
+  Theorem C13_gridb_top_internal :
+    forall g, W lt_ext lt_int g ->
+      match top_internal g with
+      | Some id =>
+          (exists x, In x (gcells g) /\ border x = false /\ cid x = id /\
+                     forall y, In y (gcells g) -> border y = false -> kle Z lt_int (cdata x) (cdata y) = true) \/
+          ((forall y, In y (gcells g) -> border y = true) /\
+           exists x, In x (gcells g) /\ cid x = id /\ forall y, In y (gcells g) -> kle Z lt_ext (cdata x) (cdata y) = true)
+      | None => gcells g = []
+      end.
+  Proof. exact (top_internal_spec lt_ext lt_int te re ti ri). Qed.
+  Theorem C13_gridb_top_external :
+    forall g, W lt_ext lt_int g ->
+      match top_external g with
+      | Some id =>
+          (exists x, In x (gcells g) /\ border x = true /\ cid x = id /\
+                     forall y, In y (gcells g) -> border y = true -> kle Z lt_ext (cdata x) (cdata y) = true) \/
+          ((forall y, In y (gcells g) -> border y = false) /\
+           exists x, In x (gcells g) /\ cid x = id /\ forall y, In y (gcells g) -> kle Z lt_int (cdata x) (cdata y) = true)
+      | None => gcells g = []
+      end.
+  Proof. exact (top_external_spec lt_ext lt_int te re ti ri). Qed.
+
+  (* the cell list of GridB evolves exactly as GridN's, and GridB accepts exactly the calls GridN accepts: no heap
+     call ever meets a dangling or duplicate handle *)
+  Theorem C13_gridb_add_refines_gridn :
+    forall p id c d g g', BInv lt_ext lt_int p g -> ~ In id (cidl (gcells g)) ->
+      gridb_add lt_ext lt_int p id c d g = Some g' ->
+      BInv lt_ext lt_int p g' /\ gridn_add p id c d (gcells g) = Some (gcells g').
+  Proof. exact (gridb_add_inv lt_ext lt_int te re ti ri). Qed.
+  Theorem C13_gridb_remove_refines_gridn :
+    forall p c g g', BInv lt_ext lt_int p g -> gridb_remove lt_ext lt_int p c g = Some g' ->
+      BInv lt_ext lt_int p g' /\ gridn_remove p c (gcells g) = Some (gcells g').
+  Proof. exact (gridb_remove_inv lt_ext lt_int te re ti ri). Qed.
+  Theorem C13_gridb_update_keeps_cells :
+    forall p c d g g', BInv lt_ext lt_int p g -> gridb_update lt_ext lt_int c d g = Some g' ->
+      BInv lt_ext lt_int p g' /\ gcells g' = upd_cell (set_data d) c (gcells g).
+  Proof. exact (gridb_update_inv lt_ext lt_int te re ti ri). Qed.
+  Theorem C13_gridb_add_never_dangles :
+    forall p id c d g, BInv lt_ext lt_int p g -> ~ In id (cidl (gcells g)) ->
+      (gridb_add lt_ext lt_int p id c d g = None <-> gridn_add p id c d (gcells g) = None).
+  Proof. exact (gridb_add_total lt_ext lt_int te re ti ri). Qed.
+  Theorem C13_gridb_remove_never_dangles :
+    forall p c g, BInv lt_ext lt_int p g ->
+      (gridb_remove lt_ext lt_int p c g = None <-> ~ In c (coords (gcells g))).
+  Proof. exact (gridb_remove_total lt_ext lt_int te re ti ri). Qed.
+End GridBProps.
+
 Print Assumptions C13_lookup_exact.
 Print Assumptions C13_neighbors_exact.
 Print Assumptions C13_adjacent_means_differ_by_one.
@@ -72,10 +157,35 @@ Print Assumptions C13_gridn_add_exact.
 Print Assumptions C13_gridn_remove_exact.
 Print Assumptions C13_gridn_counts_exact_for_every_history.
 
+Print Assumptions C13_gridb_invariant_for_every_history.
+Print Assumptions C13_gridb_cell_in_exactly_one_queue.
+Print Assumptions C13_gridb_queues_hold_only_cells.
+Print Assumptions C13_gridb_queue_sizes.
+Print Assumptions C13_gridb_top_internal.
+Print Assumptions C13_gridb_top_external.
+Print Assumptions C13_gridb_add_refines_gridn.
+Print Assumptions C13_gridb_remove_refines_gridn.
+Print Assumptions C13_gridb_update_keeps_cells.
+Print Assumptions C13_gridb_add_never_dangles.
+Print Assumptions C13_gridb_remove_never_dangles.
+
 (* non-vacuity: a 2-D grid with bounds where a border/interior flip and a removal happen *)
 Example C13_nonvacuous :
   let p := mkGP 2 (Some ([0;0], [2;2])) 2 in
   option_map (map (fun x => (cid x, nbrs x, border x)))
     (grun p [] [GAdd 0 [0;0] 5; GAdd 1 [1;0] 3; GAdd 2 [1;1] 7; GRemove [0;0]; GAdd 3 [2;1] 1])
   = Some [(1%nat, 2, false); (2%nat, 2, false); (3%nat, 2, false)].
+Proof. vm_compute. reflexivity. Qed.
+
+(* non-vacuity for GridB: the second addition flips cell 0 from the external to the internal queue, the update
+   re-sifts it there, and the removal flips it back; the external queue prefers larger data, the internal smaller *)
+Example C13_gridb_nonvacuous :
+  let p := mkGP 2 None 1 in
+  let show := fun g => (map (fun x => (cid x, border x)) (gcells g), map (strip Z) (hext g), map (strip Z) (hint g), top_internal g, top_external g) in
+  let ops := [BAdd 0 [0;0] 5; BAdd 1 [1;0] 3; BAdd 2 [7;7] 4; BUpdate [0;0] 1; BRemove [1;0]] in
+  map (fun k => option_map show (brun (fun a b => b <? a) Z.ltb p gb_empty (firstn k ops))) [1; 2; 4; 5]%nat
+  = [Some ([(0%nat, true)], [(0%nat, 5)], [], Some 0%nat, Some 0%nat);
+     Some ([(0%nat, false); (1%nat, false)], [], [(1%nat, 3); (0%nat, 5)], Some 1%nat, Some 1%nat);
+     Some ([(0%nat, false); (1%nat, false); (2%nat, true)], [(2%nat, 4)], [(0%nat, 1); (1%nat, 3)], Some 0%nat, Some 2%nat);
+     Some ([(0%nat, true); (2%nat, true)], [(2%nat, 4); (0%nat, 1)], [], Some 2%nat, Some 2%nat)].
 Proof. vm_compute. reflexivity. Qed.
